@@ -38,7 +38,10 @@ static void *mt_caller(void *p)
 	struct mt_ctx *c = p; char key[64], val[64];
 	pthread_barrier_wait(c->bar);
 	struct mtbl_writer_options *wo = mtbl_writer_options_init();
-	mtbl_writer_options_set_compression(wo, (c->id % 2) ? MTBL_COMPRESSION_NONE : MTBL_COMPRESSION_ZLIB);
+	/* every codec in turn (workers of one pool compress blocks of different writers, and of one writer, concurrently) */
+	static const mtbl_compression_type codecs[] = { MTBL_COMPRESSION_ZLIB, MTBL_COMPRESSION_ZSTD, MTBL_COMPRESSION_NONE,
+		MTBL_COMPRESSION_LZ4, MTBL_COMPRESSION_SNAPPY, MTBL_COMPRESSION_LZ4HC };
+	mtbl_writer_options_set_compression(wo, codecs[(c->id + c->seed) % 6]);
 	mtbl_writer_options_set_block_size(wo, 64);
 	mtbl_writer_options_set_threadpool(wo, c->tp);
 	unlink(c->path);
